@@ -73,6 +73,20 @@ AuthRace(c) ==
     /\ n' = n + 1
     /\ UNCHANGED <<live, lsn>> /\ Done("AuthRace") /\ Log4("AuthRace", c, "", Num(n))
 
+(* a correct first message whose replay is overtaken by another operator removing the server's first listener
+   ("ext", whose add event is the first retained event and has just been replayed): the newcomer still gets
+   every other retained event exactly once and in order, and the removal notice once *)
+ExtAdd == "lsnadd:ext"
+AuthRaceRm(c, d) ==
+    /\ phase[c] = "conn" /\ phase[d] = "authed" /\ c # d
+    /\ Len(events) >= 1 /\ events[1] = ExtAdd
+    /\ LET ev == Append(events, Lab("user:", c)) IN
+       /\ events' = SelectSeq(ev, LAMBDA e : e # ExtAdd) \o <<"rmreq:ext", "lsnrm:ext">>
+       /\ recv' = [x \in Clients |-> IF x = c THEN recv[c] \o <<"authok", ev[1], "lsnrm:ext">> \o SubSeq(ev, 2, Len(ev)) \o SessLabels
+                                    ELSE IF x \in Authed THEN recv[x] \o <<Lab("user:", c), "lsnrm:ext">> ELSE recv[x]]
+    /\ phase' = [phase EXCEPT ![c] = "authed"]
+    /\ UNCHANGED <<live, lsn, n>> /\ Done("AuthRaceRm") /\ Log("AuthRaceRm", c, d)
+
 FollowUp(c) ==     \* anything sent after a refused handshake: no effect at all
     /\ phase[c] = "closed"
     /\ UNCHANGED <<phase, recv, events, live, lsn, n>> /\ Done("FollowUp") /\ Log("FollowUp", c, "")
@@ -141,7 +155,7 @@ Next == /\ Len(hist) < MaxOps
            \/ \E a \in Agents : Beacon(a) \/ Register(a)
            \/ \E l \in Lst : AddLsn(l)
            \/ \E c \in Clients, l \in Lst : AddLsnOp(c, l) \/ RmLsn(c, l)
-           \/ \E c, d \in Clients : CutChat(c, d)
+           \/ \E c, d \in Clients : CutChat(c, d) \/ AuthRaceRm(c, d)
 Spec == Init /\ [][Next]_vars
 -----------------------------------------------------------------------------
 (* C06: nothing for a connection that has not authenticated *)
